@@ -195,6 +195,24 @@ def _catalogue():
                          ("inverse_transform", lambda e, a: e.inverse_transform(e.transform(a["X"]))), ("score", lambda e, a: e.score(a["X"], a["Y"]))],
                 histories=[("A", "A"), ("A", "B"), ("B", "A"), ("A", "A-y1d"), ("A-y1d", "B")], int_ok=set(),
             ))
+    # more than 500 samples: svd_solver="auto" resolves to the randomized solver there (size-dependent branch);
+    # variant B is small again (resolves to "full")
+    def pcbig_args(v):
+        if v.startswith("B"):
+            X, y1, Y2 = _data("A")
+            return {"X": X, "Y": Y2}
+        rng = np.random.default_rng([9, 520, 3 if v.startswith("A") else 4])
+        X = np.round(rng.standard_normal((520, 6)) * (0.6 ** np.arange(6)) * 256) / 256
+        X -= X.mean(axis=0)
+        Y = np.round(rng.standard_normal((520, 2)) * 64) / 64 + X[:, :2]
+        return {"X": X, "Y": Y - Y.mean(axis=0)}
+    E.append(dict(
+        name="PCovR/auto-solver/520-samples", args=pcbig_args,
+        make=lambda a: PCovR(mixing=0.5, n_components=2, random_state=0),
+        fit=lambda e, a: e.fit(a["X"], a["Y"]),
+        methods=[("transform", lambda e, a: e.transform(a["X"])), ("predict", lambda e, a: e.predict(a["X"])), ("score", lambda e, a: e.score(a["X"], a["Y"]))],
+        histories=[("A", "A"), ("A", "B"), ("B", "A")], int_ok=set(),
+    ))
     for kern, center in (("linear", False), ("rbf", True)):
         E.append(dict(
             name="KernelPCovR/%s/center=%s" % (kern, center), args=pc_args,
